@@ -591,6 +591,7 @@ pub fn simple_logical(carrier: Carrier, time_ns: i128) -> Logical {
         dup_date: None,
         scope_date_override: None,
         decoys: false,
+        unsigned_date: false,
     }
 }
 
@@ -720,6 +721,31 @@ pub fn c04(ctx: &mut Ctx) {
             let sg = sign_and_spell(&l, &mut rng, &Spelling::plain(), now);
             let inside = x_off.abs() <= 900_000_000_000;
             let mut j = job(sg.case, if inside { Expect::Accept } else { Expect::Refuse(Some("SignatureDoesNotMatch")) }, "c04-both-date-headers", "C04: with an X-Amz-Date header present, freshness is decided by its instant alone; a Date header beside it must not decide");
+            j.expect_calls = Some(if inside { 1 } else { 0 });
+            jobs.push(j);
+        }
+        run_jobs(ctx, "VALIDATE", std::mem::take(&mut jobs));
+    }
+    // query carrier with form folding: an X-Amz-Date repeated in the folded body (a later occurrence) must not
+    // decide freshness — the URL's (first) value does, fresh or stale
+    {
+        let t0: i128 = 1_440_938_160_000_000_000;
+        for k in 0..ctx.n(60, 600) {
+            let x_off: i128 = [0i128, 899, -900, 901, -901, 1440, -86_400][k % 7] * 1_000_000_000;
+            let b_off: i128 = [0i128, 1440, -1440, 30, 86_400][k % 5] * 1_000_000_000;
+            let mut l = simple_logical(Carrier::Query, t0 + x_off);
+            l.method = "POST".into();
+            l.fold = true;
+            l.content_type = Some("application/x-www-form-urlencoded".into());
+            l.signed.push("content-type".into());
+            l.form = Some(vec![
+                (b"X-Amz-Date".to_vec(), render_time(t0 + b_off, (0, 0, 0)).into_bytes()),
+                (b"b".to_vec(), b"1".to_vec()),
+            ]);
+            let now = now_for(&simple_logical(Carrier::Query, t0), 0);
+            let sg = sign_and_spell(&l, &mut rng, &Spelling::plain(), now);
+            let inside = x_off.abs() <= 900_000_000_000;
+            let mut j = job(sg.case, if inside { Expect::Accept } else { Expect::Refuse(Some("SignatureDoesNotMatch")) }, "c04-date-repeated-in-folded-body", "C04: freshness is decided by the request's date (the URL's X-Amz-Date, the first occurrence); a later X-Amz-Date folded in from the form body must not decide");
             j.expect_calls = Some(if inside { 1 } else { 0 });
             jobs.push(j);
         }
@@ -938,12 +964,21 @@ pub fn c03(ctx: &mut Ctx) {
             format!("{}/{}/{}//aws4_request", ak, date, region),
             format!("{}/{}/{}/{}/aws4_request", ak, local_date, region, service),
             format!("a/b/c/d/e/f/g/h"),
+            // an '=' inside the credential is part of the credential (the parameter is split at its first '=')
+            format!("{}/{}/{}/{}/aws4_request=x", ak, date, region, service),
+            format!("{}/{}/{}/{}/aws4_request=/a/b", ak, date, region, service),
+            format!("{}/{}/{}/{}=/aws4_request", ak, date, region, service),
+            format!("{}/{}/{}/{}/aws4_request=", ak, date, region, service),
             format!("{}/{:04}{}/{}/{}/aws4_request", ak, date[..4].parse::<i64>().unwrap() + 1, &date[4..], region, service),
             format!("{}/{:04}{}/{}/{}/aws4_request", ak, date[..4].parse::<i64>().unwrap() - 1, &date[4..], region, service),
         ];
         if !ctx.thorough {
             rng.shuffle(&mut variants);
             variants.truncate(10);
+            if i % 4 == 0 {
+                variants.push(format!("{}/{}/{}/{}/aws4_request=x", ak, date, region, service));
+                variants.push(format!("{}/{}/{}/{}/aws4_request=/a/b", ak, date, region, service));
+            }
         }
         for v in variants {
             if v == s.credential {
@@ -1223,6 +1258,29 @@ pub fn c05(ctx: &mut Ctx) {
         let mut j3 = job(c3, if ok { Expect::Accept } else { Expect::Refuse(Some("SignatureDoesNotMatch")) }, if ok { "c05-met" } else { "c05-violated" }, "C05: every way of building a requirements container must give the same verdict (declared names match case-insensitively)");
         j3.expect_calls = Some(if ok { 1 } else { 0 });
         jobs.push(j3);
+        // the signed-header list is taken as sent: a required name listed in another letter case is not listed
+        // (its header then contributes no line either), so such a request must be refused before key lookup
+        if ok && i % 4 < 2 {
+            let required: Vec<String> = s.signed_names.iter().filter(|n| *n == "host" || always.iter().any(|a| a.eq_ignore_ascii_case(n))).cloned().collect();
+            if let Some(victim) = required.get(i % required.len().max(1)) {
+                let listing = s.signed_names.join(";");
+                let changed = s.signed_names.iter().map(|n| if n == victim { let mut c = n.clone(); c[..1].make_ascii_uppercase(); c } else { n.clone() }).collect::<Vec<_>>().join(";");
+                if changed != listing {
+                    let mut c4 = s.case.clone();
+                    for (n, v) in c4.headers.iter_mut() {
+                        if n.eq_ignore_ascii_case("authorization") {
+                            *v = String::from_utf8_lossy(v).replace(&format!("SignedHeaders={}", listing), &format!("SignedHeaders={}", changed)).into_bytes();
+                        }
+                    }
+                    c4.uri = c4.uri.replace(&String::from_utf8(rs::encode(listing.as_bytes())).unwrap(), &String::from_utf8(rs::encode(changed.as_bytes())).unwrap());
+                    if c4.uri != s.case.uri || c4.headers != s.case.headers {
+                        let mut j4 = job(c4, Expect::Refuse(Some("SignatureDoesNotMatch")), "c05-listed-in-other-case", "C05: a required header listed in the signed-header list only in another letter case is not signed (the list is taken as sent; only declared names match case-insensitively)");
+                        j4.expect_calls = Some(0);
+                        jobs.push(j4);
+                    }
+                }
+            }
+        }
         if ctx.rep.samples.len() < 5 {
             ctx.rep.sample(format!("reqs always={:?} if_in_request={:?} prefixes={:?} signed={:?} -> {}", always, ifreq, prefixes, s.signed_names, if ok { "met" } else { "violated" }));
         }
@@ -1338,6 +1396,26 @@ pub fn c19(ctx: &mut Ctx) {
             l3.headers.insert(0, ("Date".into(), other_date.clone()));
             let s3 = sign_and_spell(&l3, &mut rng, &Spelling::plain(), now);
             jobs.push(job(s3.case, Expect::Accept, "c19-date-and-x-amz-date", clause));
+        }
+        {
+            // a *signed* Date header of another instant beside an *unsigned* X-Amz-Date: X-Amz-Date is still the
+            // request's date (what is or is not in the signed list plays no part in the choice)
+            let mut l3 = l.clone();
+            l3.unsigned_date = true;
+            l3.headers.insert(0, ("Date".into(), other_date.clone()));
+            l3.signed.push("date".into());
+            let s3 = sign_and_spell(&l3, &mut rng, &Spelling::plain(), now);
+            jobs.push(job(s3.case.clone(), Expect::Accept, "c19-signed-date-unsigned-x-amz-date", clause));
+            // and the mirror image: stale X-Amz-Date (unsigned), fresh signed Date -> expired
+            let mut l4 = l.clone();
+            l4.unsigned_date = true;
+            l4.time_ns = l.time_ns - 3_600_000_000_000;
+            l4.headers.insert(0, ("Date".into(), render_time(l.time_ns, (0, 0, 0)).into_bytes()));
+            l4.signed.push("date".into());
+            let s4 = sign_and_spell(&l4, &mut rng, &Spelling::plain(), now);
+            let mut j = job(s4.case, Expect::Refuse(Some("SignatureDoesNotMatch")), "c19-signed-date-unsigned-x-amz-date", clause);
+            j.expect_calls = Some(0);
+            jobs.push(j);
         }
         // (d) two security-token headers: the provider sees the first
         {
